@@ -51,6 +51,7 @@ fn base_check(id: &str, mode: &str, level: &str) -> GridCheck {
         known_sig: None,
         extra_deps: String::new(),
         group: 1,
+        compile_decides: !matches!(id, "C03" | "C06" | "C08" | "C09" | "C10" | "C11" | "C18"),
         post: None,
     }
 }
